@@ -62,7 +62,9 @@ def verdict : Except Err (Meta × Bytes) → String
 def oracleFits (ms : List Member) (o : List (Option Bytes)) : Bool :=
   (ms.filter (·.name = nMeta)).length == o.length
 
-def zeroMeta : Bytes := []
+/-- canonical form (`json.Marshal`) of the zero `raft.SnapshotMeta` the callers start from -/
+def zeroMeta : Bytes :=
+  "{\"Version\":0,\"ID\":\"\",\"Index\":0,\"Term\":0,\"Peers\":null,\"Configuration\":{\"Servers\":null},\"ConfigurationIndex\":0,\"Size\":0}".toUTF8.toList.map (·.toNat)
 
 def runRead (s : Stream) (o : List (Option Bytes)) : String :=
   verdict (readStream Sha256.sha256 applyO (zeroMeta, o) s)
